@@ -2044,6 +2044,13 @@ func (cs *State) addVote(vote *types.Vote, peerID p2p.ID) (added bool, err error
 			return
 		}
 
+		if cs.LastCommit == nil {
+			// The chain's first height has no previous commit: a "precommit for the
+			// previous height" is bogus and must not reach AddVote on a nil vote set.
+			cs.Logger.Debug("precommit vote for the height before the initial height has been ignored", "vote", vote)
+			return
+		}
+
 		added, err = cs.LastCommit.AddVote(vote)
 		if !added {
 			return
